@@ -89,32 +89,44 @@ pub fn c27_pointer_exact() {
   assert!(blank().pointer().is_none(), "C27.pointer.absent_field_is_none");
 }
 
-/// delegate() / parents() decode their fields with InscriptionId::from_value (contract:
-/// c27_inscription_id_from_value_exact) and nothing else: the delegate is from_value of the field,
-/// the parents are the from_value results of the fields in order, malformed ones skipped.
+/// delegate() decodes its field with InscriptionId::from_value (contract:
+/// c27_inscription_id_from_value_exact) and nothing else.
 //# props: C27
-//# kind: bounded(delegate field of 34 symbolic bytes; two parent fields of 33 and 8 symbolic bytes)
-//# fns: inscriptions::inscription::Inscription::delegate, inscriptions::inscription::Inscription::parents
+//# kind: bounded(delegate field of 34 symbolic bytes)
+//# fns: inscriptions::inscription::Inscription::delegate
 //# timeout: 900
 #[cfg_attr(kani, kani::proof)]
 #[cfg_attr(kani, kani::unwind(40))]
-pub fn c27_delegate_and_parents() {
+pub fn c27_delegate_is_from_value() {
   let d: [u8; 34] = kani::any();
+  let mut ins = blank();
+  ins.delegate = Some(d.to_vec());
+  let got_d = ins.delegate();
+  std::mem::forget(ins);
+  assert!(got_d == InscriptionId::from_value(&d), "C27.delegate.is_from_value_of_field");
+  assert!(blank().delegate().is_none() && blank().parents().is_empty(), "C27.delegate.absent_field_is_none");
+}
+
+/// parents() are the from_value results of the parent fields in order, malformed ones skipped
+//# props: C27
+//# tier: thorough
+//# kind: bounded(two parent fields of 33 and 8 symbolic bytes)
+//# fns: inscriptions::inscription::Inscription::parents
+//# timeout: 900
+#[cfg_attr(kani, kani::proof)]
+#[cfg_attr(kani, kani::unwind(40))]
+pub fn c27_parents_are_from_value() {
   let p0: [u8; 33] = kani::any();
   let p1: [u8; 8] = kani::any();
   let mut ins = blank();
-  ins.delegate = Some(d.to_vec());
   ins.parents.push(p0.to_vec());
   ins.parents.push(p1.to_vec());
-  let got_d = ins.delegate();
   let got_p = ins.parents();
   std::mem::forget(ins);
-  assert!(got_d == InscriptionId::from_value(&d), "C27.delegate.is_from_value_of_field");
   let want0 = InscriptionId::from_value(&p0);
   assert!(got_p.len() == if want0.is_some() { 1 } else { 0 }, "C27.parents.malformed_values_are_skipped");
   if let Some(id) = want0 {
     assert!(got_p[0] == id, "C27.parents.are_from_value_of_fields_in_order");
   }
-  assert!(blank().delegate().is_none() && blank().parents().is_empty(), "C27.delegate.absent_field_is_none");
   std::mem::forget(got_p);
 }
